@@ -16,7 +16,7 @@ RULE = ("the C15 configuration space (model tags x rated power x all subsets of 
 ASSUMPTIONS = ["the simulated inverter answers every read with exactly 2 x count payload bytes",
                "values decoded from a refused block's predecessor response would also show as foreign reads in C12/C15; this "
                "check decides only 'no reported value is fabricated from missing bytes'"]
-MUST = ["fallback_read_lost_for_another_reason", "connect_while_inverter_silent", "offered_sensors_checked", "single_reads_observed", "overlapping_polls", "poll_with_transient_rejection", "poll_after_failed_device_info", "tcp_wrong_mbap_length", "configs_run", "reads_observed", "block_running", "block_battery", "block_battery2", "block_meter_basic",
+MUST = ["single_read_windows_checked", "fallback_read_lost_for_another_reason", "connect_while_inverter_silent", "offered_sensors_checked", "single_reads_observed", "overlapping_polls", "poll_with_transient_rejection", "poll_after_failed_device_info", "tcp_wrong_mbap_length", "configs_run", "reads_observed", "block_running", "block_battery", "block_battery2", "block_meter_basic",
         "block_meter_ext", "block_meter_ext2", "block_mppt", "block_dt_running", "block_dt_meter", "block_es_runtime"]
 EXHAUSTIVE = {"quick": False, "thorough": True}
 
@@ -105,16 +105,38 @@ def check_config(cfg, part, rl, port=8899, mbap=None, rerun_info=False):
         """(a) read_sensor() of every listed id: whatever it fetches, it decodes only from that; (b) a fresh object of the same model whose
         first two polls overlap in time (the second starts while the first waits for a refusal that narrows the sensor set)"""
         import asyncio
+        # (the settings - some share their id with a runtime sensor at another address - are read first, as an application does)
+        for first in (lambda: inv.read_settings_data(), lambda: inv.read_setting("work_mode"), lambda: inv.read_setting("battery_modules")):
+            try:
+                await first()
+            except (g.InverterError, ValueError):
+                pass
         for sn_ in inv.sensors():
             rl.start()
+            n0 = len(sim.log)
+            ok_ = False
             try:
                 await inv.read_sensor(sn_.id_)
+                ok_ = True
             except (g.InverterError, ValueError):
                 pass
             for entry in rl.stop():
                 if entry[3] < entry[2]:
                     res_["short_reads"].append((30,) + entry)
             part.count("single_reads_observed")
+            size_ = getattr(sn_, "size_", 0)
+            if ok_ and size_ > 0 and fam != "ES":
+                wins = [(r[2]["reg"], r[2]["count"]) for r in sim.log[n0:] if r[2]["kind"] == "read"]
+                lo_, hi_ = sn_.offset, sn_.offset + (size_ + 1) // 2 - 1
+                # (an id may be listed twice, e.g. meter_e_total_exp as a 4-byte and - extended-2 models - an 8-byte counter: either place counts)
+                places = [(x.offset, x.offset + (getattr(x, "size_", 0) + 1) // 2 - 1) for x in inv.sensors()
+                          if x.id_ == sn_.id_ and getattr(x, "size_", 0) > 0]
+                if wins and not any(a <= l2 and h2 <= a + c - 1 for a, c in wins for l2, h2 in places):
+                    part.violate(f"C14/{fam}/single-read/read-outside-window/{sn_.id_}",
+                                 f"{tag}: read_sensor({sn_.id_!r}) (registers {lo_}..{hi_}) returned a value although its requests fetched only "
+                                 f"{[(a, a + c - 1) for a, c in wins]}", case)
+                elif wins:
+                    part.count("single_read_windows_checked")
         if fam == "ES":
             return
         # a fresh object whose FIRST poll hits a refused block and then loses the follow-up (smaller) read for another reason
